@@ -139,9 +139,13 @@ def st_runs(ctx, lz, coders, D, kind, label, data):
     def raise_more(run, u):
         return u + ctx.rng.choice([1, 4096, 1 << 20])
     r = D.LimitedRun(kind, data, max(1, needs[0] // 2), chunk=chunk)
+    nerr = 0
     for _ in range(100000):
         rc = r.code()
         if rc == lz.MEMLIMIT_ERROR:
+            nerr += 1
+            if nerr > 40:
+                break
             if r.set_limit(raise_more(r, lz.L().lzma_memusage(C.byref(r.c.strm)))) != lz.OK:
                 break
             u = lz.L().lzma_memusage(C.byref(r.c.strm))
@@ -392,7 +396,11 @@ def run(ctx):
         groups.setdefault(keyfn0("estimates", e, 0), []).append(e)
     for k in sorted(groups):
         hists.append(("estimates|" + k, [dict(e="Reset")] + groups[k]))
-    rej = tracev.validate(ctx, "TraceMemLimit", hists, keyfn, cfg=tcfg, timeout=900, max_rounds=12)
+    from checks.c10 import _Dedup
+    seen = {}
+    rej = tracev.validate(_Dedup(ctx, seen), "TraceMemLimit", hists, keyfn, cfg=tcfg, timeout=900, max_rounds=12)
+    if seen:
+        ctx.extra["rejections_per_key"] = dict(seen)
     ctx.sample(dict(kind="recorded_run", label=hists[1][0], events=hists[1][1]))
     ctx.sample(dict(kind="mt_run", event=mtev[2]))
     ctx.log("validated %d runs (%d events), %d estimates, %d threaded runs: rejected=%d"
